@@ -27,6 +27,7 @@ RULE = (
     "objects and compared with the binding model at every step.  Non-trivial: detection cases with a tie "
     "decided by manual registration; histories containing both a copy and a bind."
     ' Also: the UGRID marker inside every usual spelling of a conventions list, detection repeated after every convention class was used by hand, and the same file path rewritten with other kinds of dataset and reopened ([a, b, a] for all pairs).'
+    " Second phase: the first case of every distinct outcome and kind (thorough: every case, for expensive checks every kind) again with debug logging enabled, under numpy.errstate(all='ignore'), and in python -O child interpreters."
 )
 LEVEL_TEXT = ("all 260 registration orders x 24 datasets against a detection model written from the docstrings; all binding "
               "histories to depth 3/4 plus the reachable canonical state graph to depth 6 against a map model "
@@ -40,6 +41,14 @@ EXTRAS = ('HIGH', 'MEDIUM', 'LOW', 'NOTHING', 'ABOVE', 'BUILTIN-UGrid', 'BUILTIN
 
 def bounds(tier):
     return {'registration_orders': 260, 'history_depth_full': 3 if tier == 'quick' else 5, 'bfs_depth': 6 if tier == 'quick' else 8, 'objects': 3}
+
+
+def environment_key(case, outcome):
+    # second phase (other process environments): one registration order of each length and shape, every other part
+    return (case['part'], len(case.get('order', [])), tuple(sorted(case.get('order', [])))[:2], case.get('first'))
+
+
+ENVIRONMENTS_ON_REPRESENTATIVES_ONLY = True
 
 
 def cases(tier):
@@ -309,6 +318,9 @@ def enabled_ops(nobjects: int, max_objects: int = 3) -> list[tuple]:
         ops.append(('bind', k, 'detected'))
         ops.append(('bind', k, 'other'))
         ops.append(('detect', k))
+        # the dataset edited in place: the attributes that make its latitude recognisable removed / put back
+        ops.append(('break', k))
+        ops.append(('repair', k))
         if nobjects < max_objects:
             ops.append(('copy', k))
             ops.append(('deepcopy', k))
@@ -325,7 +337,9 @@ class World:
         class Other(CFGrid1D):
             pass
         self.other = Other
-        ds, _ = builders.build({'family': 'cf1d', 'ny': 2, 'nx': 2, 'nt': 1, 'nk': 1})
+        ds, truth = builders.build({'family': 'cf1d', 'ny': 2, 'nx': 2, 'nt': 1, 'nk': 1})
+        self.lat_name = truth.lat_name
+        self.lat_attrs = dict(ds[truth.lat_name].attrs)
         self.objects = [ds]
         self.instances: list = []          # every convention instance ever seen, in order of appearance
 
@@ -342,8 +356,18 @@ class World:
         kind, k = op[0], op[1]
         ds = self.objects[k]
         if kind == 'access':
-            convention = ds.ems
+            try:
+                convention = ds.ems
+            except RuntimeError:
+                return ('access-refused',)
             return ('access', type(convention).__name__, self.rank(convention), convention.dataset is ds)
+        if kind == 'break':
+            for key in ('units', 'standard_name', 'axis', 'coordinate_type'):
+                ds[self.lat_name].attrs.pop(key, None)
+            return ('edited',)
+        if kind == 'repair':
+            ds[self.lat_name].attrs.update(self.lat_attrs)
+            return ('edited',)
         if kind == 'bind':
             cls = self.detected if op[2] == 'detected' else self.other
             instance = cls(ds)
@@ -377,6 +401,7 @@ class Model:
 
     def __init__(self):
         self.bound: list = [None]
+        self.recognisable: list = [True]      # a function of the dataset's content alone
         self.instances = 0
 
     def fresh(self) -> int:
@@ -387,8 +412,13 @@ class Model:
         kind, k = op[0], op[1]
         if kind == 'access':
             if self.bound[k] is None:
+                if not self.recognisable[k]:
+                    return ('access-refused',)
                 self.bound[k] = ('CFGrid1D', self.fresh())
             return ('access', self.bound[k][0], self.bound[k][1], True)
+        if kind in ('break', 'repair'):
+            self.recognisable[k] = kind == 'repair'
+            return ('edited',)
         if kind == 'bind':
             name = 'CFGrid1D' if op[2] == 'detected' else 'Other'
             rank = self.fresh()        # constructing an instance is visible even when binding is refused
@@ -397,8 +427,9 @@ class Model:
             self.bound[k] = (name, rank)
             return ('bound', name, rank)
         if kind == 'detect':
-            return ('detect', 'CFGrid1D')
+            return ('detect', 'CFGrid1D' if self.recognisable[k] else None)
         self.bound.append(None)
+        self.recognisable.append(self.recognisable[k])
         return ('copied', len(self.bound) - 1)
 
     def observe(self):
@@ -427,7 +458,8 @@ def canon(world) -> tuple:
     an instance', which must be none)."""
     obs = world.observe()
     ranks = [o[1] for o in obs if o is not None]
-    return tuple(None if o is None else o[0] for o in obs) + (len(set(ranks)) == len(ranks),)
+    recognisable = tuple(all(key in ds[world.lat_name].attrs for key in world.lat_attrs) for ds in world.objects)
+    return tuple(None if o is None else o[0] for o in obs) + (len(set(ranks)) == len(ranks),) + recognisable
 
 
 def classify(problem) -> str:
@@ -435,7 +467,9 @@ def classify(problem) -> str:
     if op[0] == 'bind':
         return 'second-bind-not-refused' if want == ('bind-refused',) else 'bind'
     if op[0] == 'access':
-        return 'accessor-not-stable'
+        return 'accessor-not-stable' if want != ('access-refused',) and got != ('access-refused',) else 'detection-not-a-function-of-content'
+    if op[0] == 'detect':
+        return 'detection-not-a-function-of-content'
     if op[0] in ('copy', 'deepcopy'):
         return 'copy-not-independent'
     return op[0]
